@@ -37,15 +37,15 @@ LEVEL_NOTE = (
 from harness.checks.c05 import tol_eps  # same calibrated algorithmic tolerance
 
 
-def _nsched_nout(kind, d, m):
-    n_p = 1 + d * (d - 1)
+def _nsched_nout(kind, d, m, case=None):
+    n_s, n_p = (d * d, 1 + d * (d - 1)) if case is None else tomo.n_testers(case)
     if kind == "qst":
         return n_p, d
     if kind == "povmt":
-        return d * d, m
+        return n_s, m
     if kind == "qpt":
-        return d * d * n_p, d
-    return d * d * n_p, m * d
+        return n_s * n_p, d
+    return n_s * n_p, m * d
 
 
 @st.composite
@@ -61,7 +61,7 @@ def est_case(draw, tier, kinds=None, shapes_for=None):
         shapes = ("1q", "qutrit") if kind in ("qst", "povmt", "qpt") else ("1q",)
     case = draw(tomo.tomo_case((kind,), shapes, (2, 3)))
     d = gen.dim_of(case["shape"])
-    ns, no = _nsched_nout(kind, d, case["true"].get("m"))
+    ns, no = _nsched_nout(kind, d, case["true"].get("m"), case)
     case["datadesc"] = draw(tomo.data_for(ns, no))
     case["order"] = draw(st.sampled_from(["eq_ineq", "ineq_eq"]))
     return case
